@@ -46,6 +46,7 @@ class Tr(object):
         self.externals = spec.get('externals', {})     # dotted python expr -> param name
         self.ext_types = spec.get('external_types', {})
         self.drop_calls = spec.get('drop_calls', ['self.ui.'])
+        self.ignore_locals = set(spec.get('ignore_locals', []))   # e.g. message strings only handed to the UI
 
     # ---------------------------------------------------------------- expressions
     def dotted(self, node):
@@ -81,6 +82,8 @@ class Tr(object):
                     raise Unsupported('unknown field self.%s' % f)
                 return 'self.' + lean_name(f)
             if isinstance(e, ast.Name):
+                if e.id in self.ignore_locals:
+                    raise Unsupported('ignored local %s is read' % e.id)
                 if e.id in locals_:
                     return lean_name(e.id)
                 if e.id in ('True', 'False'):
@@ -183,6 +186,8 @@ class Tr(object):
                     v = '(self.%s %s %s)' % (lean_name(f), op, v)
                 return (pad + 'let self := { self with %s := %s }\n' % (lean_name(f), v)
                         + self.block(rest, locals_, returns_value, indent))
+            if isinstance(target, ast.Name) and target.id in self.ignore_locals:
+                return self.block(rest, locals_, returns_value, indent)
             if isinstance(target, ast.Name):
                 v = self.expr(value, locals_)
                 if aug is not None:
